@@ -45,15 +45,22 @@ func capsFromMask(mask int) []string {
 	return out
 }
 
-var replyAltNames = []string{"ok", "4yz", "5yz", "drop"}
+var replyAltNames = []string{"ok", "4yz", "5yz", "drop", "garbage"}
 
 // stdScript answers every event through the chooser with the alphabet {default, 4yz, 5yz, drop}.
 func stdScript(c *vf.Chooser) func(s *refsmtp.Session, ev *refsmtp.Event, def refsmtp.Action) refsmtp.Action {
+	return stdScriptN(c, 4)
+}
+
+// stdScriptN: n=4 → {ok,4yz,5yz,drop}; n=5 adds a garbage (non-SMTP) reply.
+func stdScriptN(c *vf.Chooser, n int) func(s *refsmtp.Session, ev *refsmtp.Event, def refsmtp.Action) refsmtp.Action {
 	return func(s *refsmtp.Session, ev *refsmtp.Event, def refsmtp.Action) refsmtp.Action {
 		if def.Kind != refsmtp.ActReply {
 			return def
 		}
-		switch c.Choose(ev.Pos(), 4) {
+		switch c.Choose(ev.Pos(), n) {
+		case 4:
+			return refsmtp.Action{Kind: refsmtp.ActRaw, Raw: "garbage that is no SMTP reply\r\n"}
 		case 1:
 			code := 451
 			if ev.Verb == "GREETING" || ev.Verb == "QUIT" {
@@ -278,7 +285,7 @@ func c04Exec(r *vf.Run, cfg c04Cfg, c *vf.Chooser) (keys []string, whats []strin
 		case mail.ErrSMTPRcptTo:
 			allowed["RCPT"], allowed["RSET"] = true, true
 		case mail.ErrSMTPData:
-			allowed["DATA"] = true
+			allowed["DATA"], allowed["RSET"] = true, true
 		case mail.ErrSMTPDataClose:
 			allowed["EOD"] = true
 		case mail.ErrSMTPReset:
